@@ -7,6 +7,7 @@ import tempfile
 
 from common import Outcome, f2h, np, rng_for, run_driver
 
+RULE_ADDENDA = ('13 network failure modes + stall (requests without timeout are recorded); download/load histories with pre-filled targets; object lifetime; Elec2 end to end on a tiny ARFF; whole datasets and interleaved next() schedules replayed through the tape model; seeds 0, 1, 2^32-1')
 LEVEL = "proof"
 EXPLANATION = ("Theorems (Lean): SEA/Dummy label rules and argument decision tables; download = first successful mirror's bytes, mirrors after it are not contacted, "
                "DownloadError iff none succeeds. This run reproduces NumPy's draws for many seeds/blocks/noise levels and compares labels with the model, and drives "
